@@ -95,6 +95,11 @@ type scripted[T any] struct {
 	stopped bool
 	stops   int
 	ordered bool
+	// trigger: the Next call that successfully returns the item at position trigPos calls onTrig
+	// from inside (used to cancel the calling request's context in the middle of a batch read)
+	hasTrig bool
+	trigPos int
+	onTrig  func()
 }
 
 func (s *scripted[T]) Next(ctx context.Context) (T, error) {
@@ -111,6 +116,9 @@ func (s *scripted[T]) Next(ctx context.Context) (T, error) {
 	s.pos++
 	if e.isErr {
 		return zero, mkErr(e.code)
+	}
+	if s.hasTrig && s.pos-1 == s.trigPos && s.onTrig != nil {
+		s.onTrig()
 	}
 	return e.val, nil
 }
@@ -315,6 +323,7 @@ type caseSpec struct {
 	Msgs   [][][]int `json:"msgs,omitempty"` // per channel: messages; [0, events...] iterator, [1, e] error, [2] empty
 	SOps   [][]int   `json:"sops,omitempty"` // structured ops (streams, shared)
 	Timed  bool      `json:"timed,omitempty"`
+	Trig   []int     `json:"trig,omitempty"` // shared: [script index, position]; sharedfree: [position, mode]
 	Seed   uint64    `json:"seed,omitempty"`
 	NT     *bool     `json:"nt,omitempty"`
 }
